@@ -1,7 +1,8 @@
 """C03 — check configuration and MANIFEST entry."""
 CFG = {
+ 'translator': True,
     "count": {"quick": 150000, "thorough": 8000000},
-    "lean_files": ["GeoModel/Orient.lean", "GeoModel/Segment.lean", "GeoModel/F64.lean", "GeoModel/Ops/C03.lean",
+    "lean_files": ['GeoModel/Gen/Kernel.lean', 'GeoProofs/Lemmas/GenKernel.lean', "GeoModel/Orient.lean", "GeoModel/Segment.lean", "GeoModel/F64.lean", "GeoModel/Ops/C03.lean",
                    "GeoProofs/Lemmas/SegmentSpec.lean", "GeoProofs/Lemmas/RingSpec.lean"],
     "rule": "adversarial f64 inputs: exactly collinear dyadic triples with one coordinate nudged by 0-3 ulps at magnitudes 2^-20..2^58, "
             "the classic 'tiny offsets near a large base point' pattern, rings scaled to 2^0..2^45 with query points on / one ulp off an edge; "
